@@ -256,12 +256,18 @@ def catch_rule(run, f, rid):
             for (cb, t) in user_calls:
                 if cb.npath not in arg:
                     why.append("the closure calling the user code (%s) is not the argument of catch_unwind" % cb.npath.rsplit("::", 1)[1])
-        # map_err closure downcasts: &str and String
+        # payload downcasts to &str and String: in the closure handed to map_err on the catch_unwind result, or -- when
+        # the author matches on that result in place -- in this function itself, on a value that derives from it
         dc = set()
         for cb in [c for c in f.bodies if c.kind == "Closure" and c.npath.startswith(fn + "::{closure#")]:
             for (x, t) in cb.calls():
                 if norm(t.get("callee") or "").endswith("::downcast_ref"):
                     dc.add(t["substs"][-1] if t.get("substs") else "?")
+        if cu:
+            for (x, t) in b.calls():
+                if norm(t.get("callee") or "").endswith("::downcast_ref") and t["args"]:
+                    if any(y == cu[0][0] for (y, _t) in backward(b, t["args"][0], du, at=(x, "term"), through_calls="all").calls):
+                        dc.add(t["substs"][-1] if t.get("substs") else "?")
         if not any("str" in d for d in dc) or not any("String" in d for d in dc):
             why.append("panic payloads are not downcast to both &'static str and String (found %s)" % sorted(dc))
         if why:
@@ -270,10 +276,18 @@ def catch_rule(run, f, rid):
             run.ok(rid, fn + "/catch", {"payload_types": sorted(dc)})
     # the message is used unmodified (no slicing / truncation)
     for fn in (sites[0][0], "co_pool::task::Task::run"):
-        for cb in [c for c in f.bodies if c.kind == "Closure" and c.npath.startswith(fn + "::{closure#")]:
-            calls = [norm(t.get("callee") or "") for (_x, t) in cb.calls()]
-            if any(c.endswith("::downcast_ref") for c in calls):
-                bad = [c for c in calls if c.endswith(("Index>::index", "::get", "::truncate", "::split_at", "::chars", "::get_unchecked")) or "SliceIndex" in c or "ops::Range" in c]
+        host = f.body(fn)
+        for cb in [c for c in f.bodies if c.kind == "Closure" and c.npath.startswith(fn + "::{closure#")] + ([host] if host is not None else []):
+            cdu = DefUse(cb)
+            dcs = {x for (x, t) in cb.calls() if norm(t.get("callee") or "").endswith("::downcast_ref")}
+            if dcs:
+                # slicing / truncation applied to a value that derives from a downcast payload (not any `.get` in the body)
+                bad = []
+                for (x, t) in cb.calls():
+                    c = norm(t.get("callee") or "")
+                    if (c.endswith(("Index>::index", "::get", "::truncate", "::split_at", "::chars", "::get_unchecked")) or "SliceIndex" in c or "ops::Range" in c) and t["args"]:
+                        if dcs & {y for (y, _t) in backward(cb, t["args"][0], cdu, at=(x, "term"), through_calls="all").calls}:
+                            bad.append(c)
                 if bad:
                     run.fail(rid, cb.npath + "/message-unmodified", cb.loc(), "the panic message is sliced/truncated before it is reported (%s): long messages are cut and a cut inside a UTF-8 character panics outside catch_unwind" % bad[0], counts_as_instance=False)
 
